@@ -210,6 +210,7 @@ def extra_items(tier):
     items.append(("attrs", 0))
     for v in range(12):
         items.append(("collide", v))
+    items.append(("shared-tables", 0))
     # number tables: n distinct numbers between a -0.0 and a 0.0 (both orders), as a spline table and as polynomial coefficients
     for n in (20, 130, 200):
         for mirrored in (False, True):
@@ -231,6 +232,9 @@ def extra_doc(item):
         return c07.mk_doc(c07.binary_variants("quick"), 3, "Binary"), []
     if fam == "c08":
         return c08.doc_for(list(range(x[1], x[2])), x[0]), []
+    if fam == "shared-tables":
+        mk = docs_mod().packet_for
+        return shared_tables_doc(), [mk(0, "".join(format(b, "08b") for b in bs)) for bs in ((0, 100, 150, 5, 7), (255, 1, 200, 10, 0), (50, 250, 0, 255, 128))]
     if fam == "numbers":
         return numbers_doc(*x), [docs_mod().packet_for(0, "0000000000000001"), docs_mod().packet_for(0, "0000000000000000")]
     if fam == "collide":
@@ -239,6 +243,20 @@ def extra_doc(item):
         mk = docs_mod().packet_for
         return collide_doc(x), [mk(1, "10100101" + "1100" + "0011" + "01011010"), mk(2, "0110" + "1001" + "11110000")]
     return attrs_doc(), []
+
+
+def shared_tables_doc():
+    """Several parameters calibrated by EQUAL tables (the same thermistor curve on three channels: as default calibrator of two types and as a
+    context calibrator of a third), a table whose unused rows repeat its first row nine times, and a polynomial used twice."""
+    from mc.spec import Cmp, CtxCal, IntEnc, Param, Poly, PType, Spline
+    curve = Spline(((0.0, -40.0), (100.0, 0.0), (200.0, 85.5), (255.0, 150.0)), 1, False)
+    padded = Spline(((0.0, 1.0),) * 9 + ((10.0, 2.0), (20.0, 4.0)) + ((255.0, 9.0),) * 8, 0, True)
+    poly = Poly(((1.5, 0), (0.25, 1)))
+    pts = [PType("TA_T", "Integer", IntEnc(8, default_cal=curve)), PType("TB_T", "Integer", IntEnc(8, default_cal=curve)),
+           PType("TC_T", "Integer", IntEnc(8, default_cal=poly, ctx_cals=(CtxCal((Cmp("TA", ">=", "0"),), curve),))),
+           PType("TD_T", "Integer", IntEnc(8, default_cal=padded)), PType("TE_T", "Integer", IntEnc(8, default_cal=poly))]
+    prs = [Param(n, n + "_T") for n in ("TA", "TB", "TC", "TD", "TE")]
+    return docs_mod().selector_doc([(pts, prs, [("p", p.name) for p in prs])])
 
 
 def numbers_doc(n, mirrored, kind):
